@@ -288,6 +288,34 @@ class Check:
         with open(op) as fh:
             return json.load(fh)
 
+    def replay_retry(self, binary, mode, behs, wrap=lambda b: b, timeout=900, tries=2):
+        """Runs a behaviour-replay mode and re-executes the behaviours that drifted (identified by "behaviour <i>" in the
+        drift text) up to `tries` more times on fresh nodes: drift that does not reproduce is a scheduling accident of the
+        loaded machine, noted and dropped; drift that reproduces every time stays; a violation found on a re-execution is a
+        violation (it comes from the real code). wrap(behaviours) builds the harness input."""
+        res = self.harness(binary, mode, wrap(behs), timeout=timeout)
+        for _ in range(tries):
+            idx = sorted({int(m) for d in (res.get('drifts') or []) for m in re.findall(r'behaviour (\d+)', d.get('what', ''))})
+            idx = [i for i in idx if i < len(behs)]
+            if not idx:
+                break
+            keep = [d for d in res['drifts'] if not re.search(r'behaviour (\d+)', d.get('what', ''))]
+            r2 = self.harness(binary, mode, wrap([behs[i] for i in idx]), timeout=timeout)
+            again = []
+            for d in r2.get('drifts') or []:
+                m = re.search(r'behaviour (\d+)', d.get('what', ''))
+                if m and int(m.group(1)) < len(idx):
+                    d = dict(d, what=re.sub(r'behaviour \d+', 'behaviour %d' % idx[int(m.group(1))], d['what'], count=1))
+                again.append(d)
+            gone = len(idx) - len({re.search(r'behaviour (\d+)', d['what']).group(1) for d in again if re.search(r'behaviour (\d+)', d['what'])})
+            if gone:
+                self.notes.append('%d drifted behaviour(s) of %s passed on re-execution (machine load)' % (gone, mode))
+            res['drifts'] = keep + again
+            res['violations'] = (res.get('violations') or []) + (r2.get('violations') or [])
+            res['completed'] = res.get('completed', 0) + r2.get('completed', 0)
+            res['nontrivial'] = max(res.get('nontrivial', 0), res.get('nontrivial', 0))
+        return res
+
     def absorb(self, result, only_prop=True):
         """Takes violations/drifts from a harness result. Violations of other properties are ignored here
         (each property has its own check) unless only_prop is False."""
